@@ -2,7 +2,7 @@
    O-tie: every bounds check the real code generator emits for the whole family (GenChecks.v, regenerated
    from vyper/codegen/core.py on every run) is syntactically one of the parametric templates of Checks.v. *)
 From Coq Require Import ZArith Bool List String Lia.
-From Verif Require Import Base.Word256 Base.PyInt C03.LIR C03.VSL C04.AllocModel C04.AllocProofs C04.LegacyProofs C04.GenLegacy C04.LegacyTie C04.Frames C04.Concretize C04.Checks C04.GenChecks.
+From Verif Require Import Base.Word256 Base.PyInt C03.LIR C03.VSL C04.AllocModel C04.AllocProofs C04.LegacyProofs C04.GenLegacy C04.LegacyTie C04.Frames C04.Concretize C04.MemLiveness C04.Checks C04.GenChecks.
 Import ListNotations.
 Open Scope Z_scope.
 
@@ -185,7 +185,57 @@ Theorem no_overlap_if_interfere_sound : forall globals l, no_overlap_if_interfer
 Proof. exact no_overlap_checker_sound. Qed.
 Print Assumptions no_overlap_if_interfere_sound.
 
+(* MemLivenessAnalysis: any tables satisfying the analysis' fixpoint inequations over-approximate true liveness
+   (live_after: a path to a read with no complete overwrite in between) and "referenced before"; therefore, if b is
+   accessed at instruction i while the value of a (referenced before i) may still be read at/after i, both livesets
+   contain i -- such allocas interfere and concretize_interfering_disjoint keeps them apart.
+   Assumed (not proved): BasePtrAnalysis / memory_location tables give sound reads / writes / kill sets. *)
+Theorem memliveness_sound : forall succ reads writes refs kill liveat used,
+  (forall i a, In a (reads i) -> In a (liveat i)) ->
+  (forall i s a, In s (succ i) -> In a (liveat s) -> (kill s <> Some a \/ In a (reads s)) -> In a (liveat i)) ->
+  (forall i a, In a (refs i) -> In a (used i)) ->
+  (forall i s a, In s (succ i) -> In a (used i) -> In a (used s)) ->
+  (forall i a, In a (reads i) -> In a (refs i)) ->
+  (forall i a, live_after succ reads kill i a -> In a (liveat i)) /\
+  (forall i a, touched_before succ refs i a -> In a (used i)) /\
+  (forall i a b, (In b (reads i) \/ In b (writes i)) -> touched_before succ refs i a ->
+     (live_after succ reads kill i a \/ In a (reads i)) ->
+     in_liveset writes liveat used a i /\ in_liveset writes liveat used b i).
+Proof.
+  intros succ reads writes refs kill liveat used L1 L2 U1 U2 R1. split; [|split].
+  - apply liveat_sound; auto.
+  - apply used_sound; auto.
+  - apply interfere_sound; auto.
+Qed.
+Print Assumptions memliveness_sound.
+
+(* verified checker evaluated (vm_compute) on the tables of the real analysis *)
+Theorem memliveness_checker_sound : forall tbl ls, memliveness_check tbl ls = true ->
+  let succ i := m_succ (rowat tbl i) in let reads i := m_reads (rowat tbl i) in
+  let writes i := m_writes (rowat tbl i) in let refs i := m_refs (rowat tbl i) in
+  let kill i := m_kill (rowat tbl i) in
+  forall i a b, (i < List.length tbl)%nat ->
+    (In b (reads i) \/ In b (writes i)) ->
+    touched_before succ refs i a -> (live_after succ reads kill i a \/ In a (reads i)) ->
+    In i (liveset_of ls a) /\ In i (liveset_of ls b).
+Proof. intros tbl ls C. cbv zeta. intros. eapply (memliveness_check_sound tbl ls C); eauto. Qed.
+Print Assumptions memliveness_checker_sound.
+
 (* ---- non-vacuity ---- *)
+Example memliveness_nonvacuous :
+  (* 0: write a(0) fully; 1: write b(1) fully; 2: read a; 3: read b *)
+  let tbl := [mkM [1%nat] [] [0%nat] [0%nat] (Some 0%nat) [0%nat] [0%nat];
+              mkM [2%nat] [] [1%nat] [1%nat] (Some 1%nat) [0%nat; 1%nat] [0%nat; 1%nat];
+              mkM [3%nat] [0%nat] [] [0%nat] None [0%nat; 1%nat] [0%nat; 1%nat];
+              mkM [] [1%nat] [] [1%nat] None [1%nat] [0%nat; 1%nat]] in
+  memliveness_check tbl [(0%nat, [0%nat; 1%nat; 2%nat]); (1%nat, [1%nat; 2%nat; 3%nat])] = true /\
+  memliveness_check tbl [(0%nat, [0%nat; 2%nat]); (1%nat, [1%nat; 2%nat; 3%nat])] = false /\
+  live_after (fun i => m_succ (rowat tbl i)) (fun i => m_reads (rowat tbl i)) (fun i => m_kill (rowat tbl i)) 1%nat 0%nat.
+Proof.
+  cbv zeta. split; [vm_compute; reflexivity|]. split; [vm_compute; reflexivity|].
+  eapply la_read; [left; reflexivity|left; reflexivity].
+Qed.
+
 Example concretize_nonvacuous :
   concretize_out [(0%nat, 1%nat); (1%nat, 2%nat)] [(0, 32)] [(0%nat, 64, 64)] [(1%nat, 64); (2%nat, 32)] = [64; 128; 32] /\
   no_overlap_if_interfere [(0, 32)] [mkA 64 64 [1; 2] false; mkA 128 64 [2; 3] true; mkA 32 32 [3] true] = true /\
